@@ -2,7 +2,7 @@
 //   drv_lru trace <out.ndjson> <tier> <seed> <shard> <nshards>
 //       random histories on both containers and across swap of two instances;
 //       one event per public call with return value and full projection.
-//   drv_lru walk <table.txt> <set|map> <depth> <two:0|1> <out.ndjson>
+//   drv_lru walk <table.txt> <set|map> <depth> <two:0|1> <out.ndjson> [cover]
 //       spec -> implementation: replays EVERY path of <= depth operations of
 //       the transition table TLC emitted from MC_Lru into real objects and
 //       compares return value + projection after each step with the table.
@@ -369,7 +369,8 @@ static bool run_path(const Table& t, const vector<int>& path, bool two, string* 
 }
 
 template <class C>
-static void walk(const Table& t, int depth, bool two, const char* out, bool is_map) {
+static void walk(const Table& t, int depth, bool two, const char* out, bool is_map, int cover) {
+  size_t st_prefixes = 0;
   int nops = (int)t.ops.size();
   int branch = two ? 2 * nops + 1 : nops;
   WalkStats st;
@@ -407,12 +408,77 @@ static void walk(const Table& t, int depth, bool two, const char* out, bool is_m
     });
   }
   for (auto& x : th) x.join();
+  // Transition coverage at any depth: every state of the table (every pair of states for two instances) is reached
+  // along a shortest path, then EVERY operation is applied there, followed by every suffix of <= cover operations.
+  // With the projection compared after each step this covers every transition of the bounded model from every
+  // state, i.e. operation sequences of any length as far as the model distinguishes them.
+  {
+    vector<vector<int>> reach(t.states.size());
+    vector<char> seen(t.states.size(), 0);
+    vector<int> queue{0};
+    seen[0] = 1;
+    for (size_t qi = 0; qi < queue.size(); qi++) {
+      int s = queue[qi];
+      for (int o = 0; o < nops; o++) {
+        int post = t.tr[s][o].first;
+        if (post >= 0 && !seen[post]) {
+          seen[post] = 1;
+          reach[post] = reach[s];
+          reach[post].push_back(o);
+          queue.push_back(post);
+        }
+      }
+    }
+    vector<vector<int>> prefixes;
+    if (!two) {
+      for (int s : queue) prefixes.push_back(reach[s]);
+    } else {
+      for (int sa : queue)
+        for (int sb : queue) {
+          vector<int> pre = reach[sa];
+          for (int o : reach[sb]) pre.push_back(o + nops);
+          prefixes.push_back(pre);
+        }
+    }
+    atomic<size_t> next_prefix{0};
+    vector<thread> th2;
+    for (unsigned w = 0; w < nthreads; w++) {
+      th2.emplace_back([&]() {
+        size_t pi;
+        while ((pi = next_prefix.fetch_add(1)) < prefixes.size()) {
+          for (int len = 1; len <= 1 + cover; len++) {
+            vector<int> tail(len, 0);
+            for (;;) {
+              vector<int> path = prefixes[pi];
+              path.insert(path.end(), tail.begin(), tail.end());
+              st.paths++;
+              st.steps += path.size();
+              if (!run_path<C>(t, path, two, nullptr, is_map)) {
+                st.mismatches++;
+                lock_guard<mutex> g(mu);
+                if (dumps.size() < 8) {
+                  string d;
+                  run_path<C>(t, path, two, &d, is_map);
+                  dumps.push_back(d);
+                }
+              }
+              int i = len - 1;
+              while (i >= 0 && ++tail[i] == branch) tail[i--] = 0;
+              if (i < 0) break;
+            }
+          }
+        }
+      });
+    }
+    for (auto& x : th2) x.join();
+    st_prefixes = prefixes.size();
+  }
   FILE* f = fopen(out, "w");
   for (auto& d : dumps) fputs(d.c_str(), f);
   fclose(f);
-  printf("STATS {\"paths\":%llu,\"steps\":%llu,\"mismatches\":%llu,\"table_states\":%zu,\"table_ops\":%d,\"depth\":%d}\n",
+  printf("STATS {\"paths\":%llu,\"steps\":%llu,\"mismatches\":%llu,\"table_states\":%zu,\"table_ops\":%d,\"depth\":%d,\"cover_prefixes\":%zu,\"cover_suffix\":%d}\n",
       (unsigned long long)st.paths.load(), (unsigned long long)st.steps.load(),
-      (unsigned long long)st.mismatches.load(), t.states.size(), nops, depth);
+      (unsigned long long)st.mismatches.load(), t.states.size(), nops, depth, st_prefixes, cover);
 }
 
 int main(int argc, char** argv) {
@@ -441,10 +507,11 @@ int main(int argc, char** argv) {
     bool is_map = string(argv[3]) == "map";
     int depth = atoi(argv[4]);
     bool two = atoi(argv[5]) != 0;
+    int cover = argc > 7 ? atoi(argv[7]) : 1;
     if (is_map)
-      walk<XMap>(t, depth, two, argv[6], true);
+      walk<XMap>(t, depth, two, argv[6], true, cover);
     else
-      walk<XSet>(t, depth, two, argv[6], false);
+      walk<XSet>(t, depth, two, argv[6], false, cover);
     return 0;
   }
   return 2;
